@@ -30,6 +30,8 @@ def first_datagrams_case(ctx, case):
         src = E.CLIENT_ADDR if role == "server" else E.SERVER_ADDR
         idle = sut._configuration.idle_timeout
         terminated = 0
+        closing_since = None
+        pto_at_close = None
         fed = 0
         last = now
         cls = ["first:" + case["state"]]
@@ -60,6 +62,8 @@ def first_datagrams_case(ctx, case):
                     data = C05.mutate(pool[inp[1] % len(pool)], inp[2])
                 elif kind in ("vn", "retry"):
                     data = C05.build_special(sut, inp)
+                elif kind == "initial_bad":
+                    data = bad_initial(inp[1])
                 else:
                     continue
                 now += 0.001
@@ -68,6 +72,9 @@ def first_datagrams_case(ctx, case):
                 last = now
                 events()
                 sut.datagrams_to_send(now)
+                if closing_since is None and (sut._close_event is not None or sut._state.name in ("CLOSING", "DRAINING")) and not terminated:
+                    closing_since = now
+                    pto_at_close = simchecks_ref_pto(sut)
                 t = sut.get_timer()
                 if not terminated and sut._state.name != "TERMINATED" and t is None:
                     ctx.violation("no-timer-on-live-connection", "%s in state %s: get_timer() is None after %d datagram(s) (connection state %s, not terminated)" % (role, case["state"], fed, sut._state.name), case)
@@ -103,6 +110,9 @@ def first_datagrams_case(ctx, case):
                 if now > last + budget:
                     ctx.violation("idle-termination-too-late", "%s in state %s terminated %.2f s after the last datagram (idle timeout %.0f s)" % (role, case["state"], now - last, idle), case)
                     return
+                if closing_since is not None and now > closing_since + 3 * pto_at_close + 0.01:
+                    ctx.violation("closing-does-not-terminate-within-three-pto", "%s in state %s: a fatal error / close was detected at t=%.4f (PTO %.4f) but termination was reported at t=%.4f, %.2f s later (allowed: 3 PTO = %.3f s)" % (role, case["state"], closing_since, pto_at_close, now, now - closing_since, 3 * pto_at_close), case)
+                    return
                 if sut.get_timer() is not None:
                     ctx.violation("timer-after-termination", "%s: get_timer() = %r after ConnectionTerminated" % (role, sut.get_timer()), case)
                     return
@@ -116,6 +126,25 @@ def first_datagrams_case(ctx, case):
         ctx.case(("first", repr(case)), nontrivial=fed > 0, classes=cls + ["first:terminated" if terminated else "first:never-started"])
 
 
+def bad_initial(which):
+    """a correctly protected, 1200-byte first Initial (anyone can derive Initial keys) whose content is a fatal error for the server that processes it"""
+    from vlib import refquic as R
+
+    dcid, scid = bytes.fromhex("8394c8f03e515708"), bytes.fromhex("c1c2c3c4c5c6c7c8")
+    ck, _ = R.initial_keys(R.V1, dcid)
+    frames = {
+        "stream-frame": [{"name": "stream", "stream_id": 0, "offset": 0, "data": b"x", "fin": False}],
+        "garbage-crypto": [{"name": "crypto", "offset": 0, "data": b"\x01\x00\x00\x05hello"}],
+        "no-crypto": [{"name": "ping"}],
+        "handshake-done": [{"name": "handshake_done"}],
+        "crypto-not-client-hello": [{"name": "crypto", "offset": 0, "data": b"\x14\x00\x00\x20" + bytes(32)}],
+    }[which]
+    payload = R.encode_frames(frames)
+    payload += bytes(1200 - 16 - len(R.build_long_header(R.V1, R.PT_INITIAL, dcid, scid, 0, 2, 1100, length_size=2)) - len(payload))
+    hdr = R.build_long_header(R.V1, R.PT_INITIAL, dcid, scid, 0, 2, len(payload), length_size=2)
+    return R.protect(ck, hdr, 0, payload)
+
+
 def first_datagrams_task(ctx, examples, shard):
     from hypothesis import strategies as st
     from props import C05
@@ -127,7 +156,11 @@ def first_datagrams_task(ctx, examples, shard):
     # a client right after connect(): Version Negotiation (acceptable, unacceptable, ignorable), Retry, and the genuine answer in any order
     special = st.lists(st.one_of(st.tuples(st.just("vn"), st.sampled_from(["current", "current+other", "other", "none", "unknown", "many"]), st.booleans()), st.tuples(st.just("retry"), st.sampled_from([0, 16, 100, 1150]), st.booleans()), st.tuples(st.just("genuine"), st.integers(0, 3))), min_size=1, max_size=4)
     directed = special.map(lambda inputs: {"kind": "first", "state": "client-connecting", "inputs": inputs})
-    strat = st.one_of(strat, strat, strat, directed)
+    # a fresh server whose very first packet is well protected and fatal
+    fatal_first = st.tuples(st.sampled_from(["stream-frame", "garbage-crypto", "no-crypto", "handshake-done", "crypto-not-client-hello"]), st.lists(st.tuples(st.just("genuine"), st.integers(0, 3)), max_size=2)).map(
+        lambda t: {"kind": "first", "state": "fresh-server", "inputs": [("initial_bad", t[0])] + t[1]}
+    )
+    strat = st.one_of(strat, strat, strat, directed, fatal_first)
 
     def body(ctx, case):
         first_datagrams_case(ctx, case)
